@@ -25,6 +25,7 @@ type Step struct {
 	DtNs    int64  `json:"dt_ns,omitempty"`
 	Mod     *ModOp `json:"mod,omitempty"`
 	Behaviour int  `json:"behaviour,omitempty"`
+	SameTx  bool   `json:"same_tx,omitempty"` // next message of the previous message's transaction
 }
 
 type FundRec struct {
@@ -39,6 +40,7 @@ type HistorySetup struct {
 	Funds         []FundRec `json:"funds"`
 	ModSvcPricing string    `json:"modsvc_pricing,omitempty"`
 	StateCbKill   bool      `json:"state_callback_kills,omitempty"`
+	StartHeight   int64     `json:"start_height,omitempty"`
 }
 
 type History struct {
@@ -175,11 +177,16 @@ func paramsDesc(p types.Params) string {
 
 // NewRun starts a recorded history.
 func NewRun(a *App, name string, seed int64, params types.Params, mon *Mon) *Run {
+	return NewRunAt(a, name, seed, params, mon, startHeight)
+}
+
+func NewRunAt(a *App, name string, seed int64, params types.Params, mon *Mon, start int64) *Run {
+	a.startAt = start
 	w := a.NewWorld(params)
 	pb, err := params.Marshal()
 	must(err)
 	r := &Run{w: w, mon: mon, rng: rand.New(rand.NewSource(seed)), maxSteps: 100000,
-		hist: &History{Name: name, Seed: seed, Setup: HistorySetup{ParamsB64: base64.StdEncoding.EncodeToString(pb), ParamsDesc: paramsDesc(params)}}}
+		hist: &History{Name: name, Seed: seed, Setup: HistorySetup{ParamsB64: base64.StdEncoding.EncodeToString(pb), ParamsDesc: paramsDesc(params), StartHeight: start}}}
 	return r
 }
 
@@ -222,10 +229,12 @@ func (r *Run) after(st Step, msg sdk.Msg, res StepResult) {
 	}
 }
 
-func (r *Run) Msg(msg sdk.Msg, note string) StepResult {
+func (r *Run) Msg(msg sdk.Msg, note string) StepResult { return r.MsgTx(msg, note, false) }
+
+func (r *Run) MsgTx(msg sdk.Msg, note string, sameTx bool) StepResult {
 	typ, b64 := encodeMsg(msg)
-	st := Step{Kind: "msg", MsgType: typ, MsgB64: b64, Desc: describeMsg(msg), Note: note}
-	res := r.w.DeliverMsg(msg)
+	st := Step{Kind: "msg", MsgType: typ, MsgB64: b64, Desc: describeMsg(msg), Note: note, SameTx: sameTx}
+	res := r.w.DeliverMsgTx(msg, sameTx)
 	r.after(st, msg, res)
 	return res
 }
@@ -275,7 +284,11 @@ func Replay(a *App, h *History, mon *Mon) *Run {
 	must(err)
 	var params types.Params
 	must(params.Unmarshal(pb))
-	r := NewRun(a, h.Name, h.Seed, params, mon)
+	start := h.Setup.StartHeight
+	if start == 0 {
+		start = startHeight
+	}
+	r := NewRunAt(a, h.Name, h.Seed, params, mon, start)
 	for _, f := range h.Setup.Funds {
 		var amt int64
 		fmt.Sscan(f.Amount, &amt)
@@ -293,7 +306,7 @@ func Replay(a *App, h *History, mon *Mon) *Run {
 	for _, st := range h.Steps {
 		switch st.Kind {
 		case "msg":
-			r.Msg(decodeMsg(st.MsgType, st.MsgB64), st.Note)
+			r.MsgTx(decodeMsg(st.MsgType, st.MsgB64), st.Note, st.SameTx)
 		case "block":
 			r.Block(time.Duration(st.DtNs))
 		case "mod":
